@@ -282,3 +282,23 @@ ROUND7 = {
     "C17": "Version negotiation, interpreted by the JSON type-guard engine with any JSON value for the peer's can-dilate entry, cannot raise (C17.R13).",
     "C18": "Inbound de-duplication is by phase (C18.R8, the instances of C02.R5): a second copy of a processed phase, also re-encrypted, never reaches the application. " + _OBS + " (C18.R6).",
 }
+
+
+_RELAY = ("Each event method of the delegate front-end (_DelegatedWormhole) relays its argument to the matching wormhole_* method on every path and nothing else "
+          "calls that method: no buffer, flag or reordering of its own (%s).")
+ROUND8 = {
+    "C03": _RELAY % "C03.R8, received" + " Every creation of a waiting Deferred carries the canceller (C03.R3).",
+    "C06": "The step both roles pass through when the record phase begins cancels the handshake timer on every path (C06.R9).",
+    "C07": "Every connection attempt _connect starts is entered into the race before the next one starts or the function returns (C07.R10).",
+    "C08": _RELAY % "C08.R11, closed",
+    "C10": "No loop over a container attribute of the dilation data plane modifies that container in its body (C10.R12).",
+    "C11": "The set of pending connection attempts has no writer that a cancelled attempt's callbacks could run while stop_pending_connectors iterates it (C11.R10, the instances of C17.R5).",
+    "C12": "After a recognised token the framer's loop always parses again before it can end (C12.R7: relay reply and prologue in one segment); the queue of records parked during selection is not modified while iterated (C12.R8).",
+    "C13": "Data received before a listener exists is held until it is delivered: _pending_remote_data has exactly its three writers (C13.R9).",
+    "C14": "Mailbox.dequeue tolerates an echo for a phase that is not pending (C14.R8).",
+    "C16": "Dilator.dilate hands the application's ping_interval to the Manager as given, never reassigned (C16.R6).",
+    "C17": "Writer table of Connector._pending_connectors (C17.R5).",
+    "C18": _RELAY % "C18.R9, all seven events",
+    "C19": "Input._all_nameplates is replaced by every listing, the empty one included (C19.R7, on every path).",
+    "C20": "The JSON guard starts at the Automat output in front of _use_hints and reports a constant index into a sequence built from peer data (INDEX sinks of C20.R1).",
+}
